@@ -920,6 +920,8 @@ static int upipe_ts_encaps_overlap_au(struct upipe *upipe,
     uref_clock_get_dts_pts_delay(uref_au2, &dts_pts_delay);
     uint64_t dts_prog = UINT64_MAX;
     uref_clock_get_dts_prog(uref_au2, &dts_prog);
+    uint64_t pts_prog = UINT64_MAX;
+    uref_clock_get_pts_prog(uref_au2, &pts_prog);
 
     /* Adjust overlap's dts_prog and pts_prog */
     uref_clock_delete_date_prog(uref_overlap);
@@ -927,6 +929,9 @@ static int upipe_ts_encaps_overlap_au(struct upipe *upipe,
     if (dts_prog != UINT64_MAX) {
         uref_clock_set_dts_prog(uref_overlap, dts_prog);
         uref_clock_set_dts_pts_delay(uref_overlap, dts_pts_delay);
+    } else if (pts_prog != UINT64_MAX) {
+        /* access unit 2 only has a PTS */
+        uref_clock_set_pts_prog(uref_overlap, pts_prog);
     }
     uref_block_set_start(uref_overlap);
     uref_block_delete_end(uref_overlap);
